@@ -717,6 +717,46 @@ func safeLegacyStream(c *Case, layout string) (b []byte, err error) {
 	return legacyStream(c, layout)
 }
 
+var lateRejectKeys = func() []string {
+	// a regular tree of 4096 six-byte keys (thousands of inner nodes with
+	// repetitive bitmaps) plus two keys that share a 40000-byte run deep in the
+	// tree: the build is rejected (step does not fit 16 bits) only late in its
+	// breadth-first walk
+	var nibs [][]byte
+	pairs := [][2]byte{{1, 2}, {3, 9}, {0, 15}, {4, 5}}
+	var rec func(path []byte, d int)
+	rec = func(path []byte, d int) {
+		if d == 0 {
+			nibs = append(nibs, append([]byte{}, path...))
+			return
+		}
+		p := pairs[(len(path)+int(path[len(path)-1]))%len(pairs)]
+		rec(append(append([]byte{}, path...), p[0]), d-1)
+		rec(append(append([]byte{}, path...), p[1]), d-1)
+	}
+	rec([]byte{7}, 11)
+	keys := nibblesToKeys(nibs, 0)
+	last := keys[len(keys)-1]
+	run := strings.Repeat("r", 40000)
+	keys = append(keys, last[:5]+"\xfe"+run+"a", last[:5]+"\xfe"+run+"b")
+	return uniqSorted(keys)
+}()
+
+// lateRejectedBuild makes NewSlimTrie fail late in a build (in filter mode the
+// shared 40000-byte run does not fit a step). It reports whether the build was
+// rejected; an accepted build is not this helper's business.
+func lateRejectedBuild() (rejected bool, err error) {
+	err = guard("NewSlimTrie on keys with a 40000-byte shared run", func() error {
+		st, e := trie.NewSlimTrie(nil, lateRejectKeys, nil)
+		if e != nil && st != nil {
+			return viol("err-and-trie", "NewSlimTrie returned an error and a trie")
+		}
+		rejected = e != nil
+		return nil
+	})
+	return
+}
+
 // usedInstance returns a trie (same encoder as c) that holds other data and
 // whose read APIs have all been called at least once.
 func usedInstance(c *Case) *trie.SlimTrie {
